@@ -120,6 +120,15 @@ def dpi_class(d):
     return a + "/" + b
 
 
+def dpi_keyclass(d):
+    """coarse class used in finding keys"""
+    if d is None:
+        return "absent"
+    if not (1 <= d[0] <= 2048 and 1 <= d[1] <= 2048):
+        return "out-of-range"
+    return "nonsquare" if abs(d[0] - d[1]) > 0.5 else "plain"
+
+
 def dpi_odd(d):
     """NT rule: resolution outside [1,2048] or non-square"""
     if d is None:
@@ -162,7 +171,7 @@ def check_size(info, sizev, gw, gh, cx, cy, where):
     """cx, cy: what the library produced"""
     if info.px is None:
         return
-    tag = "%s:dpi=%s" % (info.fmt, dpi_class(info.dpi))
+    tag = "%s:dpi=%s" % (info.fmt, dpi_keyclass(info.dpi))
     cands = info.native_candidates()
     if sizev == "none":
         for nw, nh in cands:
@@ -905,7 +914,7 @@ NGRID = 8
 
 
 def jobs(tier):
-    n = 1200 if tier == "thorough" else 45
+    n = 1200 if tier == "thorough" else 80
     js = [{"kind": "seq", "shard": i, "n": n} for i in range(32)]
     js += [{"kind": "grid", "shard": i, "nshard": NGRID} for i in range(NGRID)]
     js.append({"kind": "variants"})
@@ -934,7 +943,8 @@ def run_job(job, seed, tier, rec, known):
         fails = []
         skip = set()
         for rnd in range(3):
-            f = hyp_search(_make_fn(rec, known, skip), strat, seed=seed * 7 + rnd, max_examples=job["n"],
+            f = hyp_search(_make_fn(rec, known, skip), strat, seed=seed * 7 + rnd,
+                           max_examples=job["n"] if rnd == 0 else max(10, job["n"] // 3),
                            rec=rec, known={}, max_rounds=1, shrink_budget=60)
             if not f:
                 break
